@@ -941,6 +941,7 @@ func collectFeatures(items []fitem, into map[string]bool) {
 }
 
 func subsets(keys []string, max int, r interface{ Intn(int) int }) []map[string]bool {
+	keys = append([]string{}, keys...)
 	sort.Strings(keys)
 	if len(keys) > max {
 		// keep a random subset of the keys variable; the rest stay fixed to true
